@@ -308,7 +308,8 @@ pub fn c18(ctx: &mut Ctx) {
         }
     }
     // (b) fresh processes (different hash seeds) and (c) threads racing from the first use of the library
-    let file = format!("/verif/harness/target/c18-{}.cases", std::process::id());
+    let scratch = std::env::var("SIGV4_SCRATCH").unwrap_or_else(|_| "/verif/harness/target".to_string());
+    let file = format!("{}/c18-{}.cases", scratch, std::process::id());
     std::fs::write(&file, cases.iter().map(|c| c.to_line()).collect::<Vec<_>>().join("\n")).unwrap();
     let exe = std::env::current_exe().unwrap();
     let nproc = ctx.n(8, 24);
